@@ -406,4 +406,273 @@ theorem rt_objLoop : ∀ (kvs : Obj), kvs ≠ [] → RTO kvs → Sorted kvs →
         simp
 end
 
+/-! ### the recursion budget of `parse` suffices for dumped text -/
+
+mutual
+theorem bound_val : ∀ (v : Json), RT v → ∀ (ind cur : Bytes), need v + 1 ≤ 2 * (dump ind cur v).length
+  | .none, hv, _, _ => absurd hv (by simp [RT])
+  | .null, _, _, _ => by simp [need, dump, sNull]
+  | .str s, _, _, _ => by simp [need, dump, dumpStr]; omega
+  | .num p, hv, ind, cur => by
+    obtain ⟨c, t, hd, _, _⟩ := dump_head (.num p) hv ind cur
+    rw [hd]; simp [need]; omega
+  | .arr xs, hv, ind, cur => by
+    cases xs with
+    | nil => simp [need, needL, dump]
+    | cons x xs' =>
+      have := bound_arr (x :: xs') (by simpa [RT] using hv) ind (cur ++ ind)
+      simp only [need, dump, List.isEmpty_cons, Bool.false_eq_true, if_false, List.length_cons, List.length_append]
+      omega
+  | .obj kvs, hv, ind, cur => by
+    cases kvs with
+    | nil => simp [need, needO, dump]
+    | cons kv kvs' =>
+      simp only [RT] at hv
+      have := bound_obj (kv :: kvs') hv.2 ind (cur ++ ind)
+      simp only [need, dump, List.isEmpty_cons, Bool.false_eq_true, if_false, List.length_cons, List.length_append]
+      omega
+theorem bound_arr : ∀ (xs : List Json), RTL xs → ∀ (ind ni : Bytes), needL xs ≤ 2 * (dumpArr ind ni xs).length
+  | [], _, _, _ => by simp [needL]
+  | x :: xs, h, ind, ni => by
+    obtain ⟨hx, hxs⟩ := h
+    have h1 := bound_val x hx ind ni
+    have h2 := bound_arr xs hxs ind ni
+    simp only [needL, dumpArr, List.length_append]
+    omega
+theorem bound_obj : ∀ (kvs : Obj), RTO kvs → ∀ (ind ni : Bytes), needO kvs ≤ 2 * (dumpObj ind ni kvs).length
+  | [], _, _, _ => by simp [needO]
+  | (k, v) :: r, h, ind, ni => by
+    obtain ⟨_, hv, hr⟩ := h
+    have h1 := bound_val v hv ind ni
+    have h2 := bound_obj r hr ind ni
+    have hvn : v.isNone = false := by
+      cases v <;> first | rfl | exact absurd hv (by simp [RT])
+    simp only [needO, dumpObj, hvn, Bool.false_eq_true, if_false, List.length_append]
+    omega
+end
+
+/-! ### NUL-free values have NUL-free text -/
+
+def NoNulB (s : Bytes) : Prop := ∀ c ∈ s, c ≠ 0
+
+mutual
+/-- no string and no key contains a NUL byte -/
+def NoNul : Json → Prop
+  | .str s => NoNulB s
+  | .arr xs => NoNulL xs
+  | .obj kvs => NoNulO kvs
+  | _ => True
+def NoNulL : List Json → Prop
+  | [] => True
+  | x :: xs => NoNul x ∧ NoNulL xs
+def NoNulO : Obj → Prop
+  | [] => True
+  | (k, v) :: r => NoNulB k ∧ NoNul v ∧ NoNulO r
+end
+
+theorem noNulB_append {a b : Bytes} (ha : NoNulB a) (hb : NoNulB b) : NoNulB (a ++ b) := by
+  intro c h
+  rcases List.mem_append.mp h with h | h
+  · exact ha c h
+  · exact hb c h
+
+theorem noNulB_of_allWs {s : Bytes} (h : AllWs s) : NoNulB s := by
+  intro c hc e; subst e; exact absurd (h 0 hc) (by decide)
+
+theorem noNulB_lit {s : Bytes} (h : s.all (· ≠ 0) = true) : NoNulB s := by
+  intro c hc
+  have := List.all_eq_true.mp h c hc
+  simpa using this
+
+theorem noNulB_escBytes {s : Bytes} (h : NoNulB s) : NoNulB (escBytes s) := by
+  induction s with
+  | nil => intro c hc; simp [escBytes] at hc
+  | cons a t ih =>
+    have ha : a ≠ 0 := h a (by simp)
+    have ht : NoNulB t := fun c hc => h c (by simp [hc])
+    simp only [escBytes]
+    refine noNulB_append ?_ (ih ht)
+    have key : ∀ n, n < 256 → UInt8.ofNat n ≠ 0 → (escByte (UInt8.ofNat n)).all (· ≠ 0) = true := by
+      decide +kernel
+    have := key a.toNat (UInt8.toNat_lt a)
+    simp only [UInt8.ofNat_toNat] at this
+    exact noNulB_lit (this ha)
+
+theorem noNulB_dumpStr {s : Bytes} (h : NoNulB s) : NoNulB (dumpStr s) := by
+  unfold dumpStr
+  intro c hc
+  simp only [List.mem_cons, List.mem_append] at hc
+  rcases hc with hc | hc | hc
+  · subst hc; decide
+  · exact noNulB_escBytes h c hc
+  · simp at hc; subst hc; decide
+
+theorem noNulB_toStr {p : Prim} (h : p.IsInt ∨ p = ⟨.bool, 0, []⟩ ∨ p = ⟨.bool, 1, []⟩) : NoNulB p.toStr := by
+  rcases h with h | h | h
+  · rw [toStr_isInt h]
+    refine noNulB_append ?_ (noNulB_append ?_ ?_)
+    · split <;> intro c hc <;> simp at hc; subst hc; decide
+    · intro c hc; exact (digit_char_facts (natDec_allDigits _ c hc)).2.2.2.2.2.2.2.2
+    · split <;> intro c hc <;> simp at hc; subst hc; decide
+  · subst h; exact noNulB_lit (by decide)
+  · subst h; exact noNulB_lit (by decide)
+
+theorem noNulB_sepAfter (ind : Bytes) (b : Bool) : NoNulB (sepAfter ind b) := by
+  unfold sepAfter
+  split <;> split <;> exact noNulB_lit (by decide)
+
+mutual
+theorem noNul_dump : ∀ (v : Json), RT v → NoNul v → ∀ (ind cur : Bytes), AllWs ind → AllWs cur → NoNulB (dump ind cur v)
+  | .none, hv, _, _, _, _, _ => absurd hv (by simp [RT])
+  | .null, _, _, _, _, _, _ => by simp only [dump]; exact noNulB_lit (by decide)
+  | .str s, _, hn, _, _, _, _ => by simp only [dump]; exact noNulB_dumpStr (by simpa [NoNul] using hn)
+  | .num p, hv, _, _, _, _, _ => by simp only [dump]; exact noNulB_toStr (by simpa [RT] using hv)
+  | .arr xs, hv, hn, ind, cur, hi, hc => by
+    simp only [dump]
+    split
+    · exact noNulB_lit (by decide)
+    · have hni : AllWs (cur ++ ind) := allWs_append hc hi
+      have := noNul_dumpArr xs (by simpa [RT] using hv) (by simpa [NoNul] using hn) ind (cur ++ ind) hi hni
+      intro c hcm
+      simp only [List.mem_cons, List.mem_append] at hcm
+      rcases hcm with e | ((e | e) | e) | e
+      · subst e; decide
+      · split at e <;> simp at e; subst e; decide
+      · exact this c e
+      · exact noNulB_of_allWs hc c e
+      · simp at e; subst e; decide
+  | .obj kvs, hv, hn, ind, cur, hi, hc => by
+    simp only [dump]
+    simp only [RT] at hv
+    split
+    · exact noNulB_lit (by decide)
+    · have hni : AllWs (cur ++ ind) := allWs_append hc hi
+      have := noNul_dumpObj kvs hv.2 (by simpa [NoNul] using hn) ind (cur ++ ind) hi hni
+      intro c hcm
+      simp only [List.mem_cons, List.mem_append] at hcm
+      rcases hcm with e | ((e | e) | e) | e
+      · subst e; decide
+      · split at e <;> simp at e; subst e; decide
+      · exact this c e
+      · split at e
+        · simp at e
+        · exact noNulB_of_allWs hc c e
+      · simp at e; subst e; decide
+theorem noNul_dumpArr : ∀ (xs : List Json), RTL xs → NoNulL xs → ∀ (ind ni : Bytes), AllWs ind → AllWs ni → NoNulB (dumpArr ind ni xs)
+  | [], _, _, _, _, _, _ => by intro c hc; simp [dumpArr] at hc
+  | x :: xs, hv, hn, ind, ni, hi, hni => by
+    simp only [dumpArr]
+    exact noNulB_append (noNulB_append (noNulB_append (noNulB_of_allWs hni) (noNul_dump x hv.1 hn.1 ind ni hi hni))
+      (noNulB_sepAfter _ _)) (noNul_dumpArr xs hv.2 hn.2 ind ni hi hni)
+theorem noNul_dumpObj : ∀ (kvs : Obj), RTO kvs → NoNulO kvs → ∀ (ind ni : Bytes), AllWs ind → AllWs ni → NoNulB (dumpObj ind ni kvs)
+  | [], _, _, _, _, _, _ => by intro c hc; simp [dumpObj] at hc
+  | (k, v) :: r, hv, hn, ind, ni, hi, hni => by
+    have hvn : v.isNone = false := by
+      cases v <;> first | rfl | exact absurd hv.2.1 (by simp [RT])
+    simp only [dumpObj, hvn, Bool.false_eq_true, if_false]
+    exact noNulB_append (noNulB_append (noNulB_append (noNulB_append (noNulB_append (noNulB_of_allWs hni) (noNulB_dumpStr hn.1))
+      (noNulB_lit (by decide))) (noNul_dump v hv.2.1 hn.2.1 ind ni hi hni)) (noNulB_sepAfter _ _)) (noNul_dumpObj r hv.2.2 hn.2.2 ind ni hi hni)
+end
+
+theorem cstr_of_noNul {s : Bytes} (h : NoNulB s) : cstr s = s := by
+  unfold cstr
+  induction s with
+  | nil => rfl
+  | cons a t ih =>
+    have ha : a ≠ 0 := h a (by simp)
+    simp only [List.takeWhile_cons, ha, ne_eq, not_false_eq_true, decide_true, if_true]
+    rw [ih (fun c hc => h c (by simp [hc]))]
+
+
+/-! ### decidable guards -/
+
+def isIntB (p : Prim) : Bool :=
+  p.src.isEmpty && decide (p.ty.wrap p.val = p.val) &&
+    (p.ty = .i8 || p.ty = .u8 || p.ty = .i16 || p.ty = .u16 || p.ty = .i32 || p.ty = .u32 || p.ty = .i64 || p.ty = .u64)
+
+theorem isInt_of_isIntB {p : Prim} (h : isIntB p = true) : p.IsInt := by
+  simp only [isIntB, Bool.and_eq_true, Bool.or_eq_true, decide_eq_true_eq, List.isEmpty_iff] at h
+  obtain ⟨⟨h1, h2⟩, h3⟩ := h
+  refine ⟨h1, h2, ?_⟩
+  rcases h3 with ((((((h3 | h3) | h3) | h3) | h3) | h3) | h3) | h3 <;> simp [h3]
+
+mutual
+/-- executable form of `RT` -/
+def coveredB : Json → Bool
+  | .none => false
+  | .null => true
+  | .num p => isIntB p || p == ⟨.bool, 0, []⟩ || p == ⟨.bool, 1, []⟩
+  | .str _ => true
+  | .arr xs => coveredL xs
+  | .obj kvs => keysSorted kvs && coveredO kvs
+def coveredL : List Json → Bool
+  | [] => true
+  | x :: xs => coveredB x && coveredL xs
+def coveredO : Obj → Bool
+  | [] => true
+  | (k, v) :: r => !k.isEmpty && coveredB v && coveredO r
+end
+
+mutual
+theorem rt_of_coveredB : ∀ v, coveredB v = true → RT v
+  | .none, h => by simp [coveredB] at h
+  | .null, _ => trivial
+  | .str _, _ => trivial
+  | .num p, h => by
+    simp only [coveredB, Bool.or_eq_true, beq_iff_eq] at h
+    rcases h with (h | h) | h
+    · exact Or.inl (isInt_of_isIntB h)
+    · exact Or.inr (Or.inl h)
+    · exact Or.inr (Or.inr h)
+  | .arr xs, h => by simp only [coveredB] at h; exact rtl_of_coveredL xs h
+  | .obj kvs, h => by
+    simp only [coveredB, Bool.and_eq_true] at h
+    exact ⟨(keysSorted_iff _).mp h.1, rto_of_coveredO kvs h.2⟩
+theorem rtl_of_coveredL : ∀ xs, coveredL xs = true → RTL xs
+  | [], _ => trivial
+  | x :: xs, h => by
+    simp only [coveredL, Bool.and_eq_true] at h
+    exact ⟨rt_of_coveredB x h.1, rtl_of_coveredL xs h.2⟩
+theorem rto_of_coveredO : ∀ kvs, coveredO kvs = true → RTO kvs
+  | [], _ => trivial
+  | (k, v) :: r, h => by
+    simp only [coveredO, Bool.and_eq_true, Bool.not_eq_true', List.isEmpty_eq_false_iff] at h
+    exact ⟨h.1.1, rt_of_coveredB v h.1.2, rto_of_coveredO r h.2⟩
+end
+
+mutual
+/-- executable form of `NoNul` -/
+def nulFreeB : Json → Bool
+  | .str s => s.all (· ≠ 0)
+  | .arr xs => nulFreeL xs
+  | .obj kvs => nulFreeO kvs
+  | _ => true
+def nulFreeL : List Json → Bool
+  | [] => true
+  | x :: xs => nulFreeB x && nulFreeL xs
+def nulFreeO : Obj → Bool
+  | [] => true
+  | (k, v) :: r => k.all (· ≠ 0) && nulFreeB v && nulFreeO r
+end
+
+mutual
+theorem noNul_of_nulFreeB : ∀ v, nulFreeB v = true → NoNul v
+  | .none, _ => trivial
+  | .null, _ => trivial
+  | .num _, _ => trivial
+  | .str s, h => by simp only [nulFreeB] at h; exact noNulB_lit h
+  | .arr xs, h => by simp only [nulFreeB] at h; exact noNulL_of_nulFreeL xs h
+  | .obj kvs, h => by simp only [nulFreeB] at h; exact noNulO_of_nulFreeO kvs h
+theorem noNulL_of_nulFreeL : ∀ xs, nulFreeL xs = true → NoNulL xs
+  | [], _ => trivial
+  | x :: xs, h => by
+    simp only [nulFreeL, Bool.and_eq_true] at h
+    exact ⟨noNul_of_nulFreeB x h.1, noNulL_of_nulFreeL xs h.2⟩
+theorem noNulO_of_nulFreeO : ∀ kvs, nulFreeO kvs = true → NoNulO kvs
+  | [], _ => trivial
+  | (k, v) :: r, h => by
+    simp only [nulFreeO, Bool.and_eq_true] at h
+    exact ⟨noNulB_lit h.1.1, noNul_of_nulFreeB v h.1.2, noNulO_of_nulFreeO r h.2⟩
+end
+
 end Occa.Json
